@@ -2576,9 +2576,11 @@ class op(object):
         for i in  pwl_ineqs:
             mmap[i] = _function()
             for c in pwl_ineqs[i]:
-                mmap[i] = mmap[i] + constraints[0].multiplier[islc[c]]
-            if len(i) == 1 != len(mmap[i]):
-                mmap[i] = sum(mmap[i])
+                mc = constraints[0].multiplier[islc[c]]
+                # the pieces of a scalar inequality can have different 
+                # lengths; each contributes the sum of its multipliers
+                if len(i) == 1 != len(mc): mc = sum(mc)
+                mmap[i] = mmap[i] + mc
 
         for e in  equalities:
             # the equality constraint is the last one (the only one if 
